@@ -225,6 +225,28 @@ func VerifHarness_C10_Intersect() {
 	verifrt.Reach("end")
 }
 
+// intersect(d) consists of items of c - also where equality relates values of different kinds (here a number equals
+// a Quantity of the same amount): the result never holds an item that only d has.
+func VerifHarness_C10_IntersectYieldsItemsOfTheInput() {
+	n := verifrt.NondetIntRange("n", 0, 3)
+	m := verifrt.NondetIntRange("m", 0, 3)
+	q := system.MustParseQuantity([]string{"0", "1", "2", "3"}[m], []string{"mg", "1"}[verifrt.Choose("unit", 2)])
+	var input, other system.Collection
+	if verifrt.NondetBool("quantityInInput") {
+		input, other = system.Collection{q}, system.Collection{system.Integer(n), q}
+	} else {
+		input, other = system.Collection{system.Integer(n)}, system.Collection{q, system.Integer(n + 1)}
+	}
+	got, err := Intersect(verifCtx(), input, verifConst(other))
+	verifrt.Assert(err == nil && len(got) <= 1, "intersect-of-one-item-has-at-most-one-item")
+	for _, item := range got {
+		_, inputIsQuantity := input[0].(system.Quantity)
+		_, isQuantity := item.(system.Quantity)
+		verifrt.Assert(isQuantity == inputIsQuantity, "intersect-yields-items-of-the-input")
+	}
+	verifrt.Reach("end")
+}
+
 // extension(u) = extension.where(url = u) on real Extension structs (getter path only).
 func VerifHarness_C10_Extension() {
 	k := verifrt.Choose("k", 3)
